@@ -69,6 +69,40 @@ def rand_op(rng, names_in, all_names, pool, wind):
     return dict(op=kind, name=name)
 
 
+def state_for(sc, o, MX):
+    """the state dictionary a set_state op hands to set_aircraft_state (relative to the aircraft's current state)"""
+    cur = live_state(sc, o["name"], MX)
+    st = {"velocity": o["V"], "alpha": o["alpha"], "beta": o["beta"], "position": cur["position"], "orientation": cur["orientation"],
+          "angular_rates": cur["angular_rates"]}
+    if o["mode"] == "pose":
+        st["position"] = [c + d for c, d in zip(cur["position"], o["dp"])]
+        st["orientation"] = o["E"]
+    elif o["mode"] == "position_only":
+        # move (also in altitude) without turning: density / wind / the other aircraft are seen from the new place
+        st["position"] = [cur["position"][0] + o["dp"][0], cur["position"][1] + o["dp"][1], cur["position"][2] + 40.0 * o["dp"][2]]
+    elif o["mode"] == "tiny_pose":
+        # a change of attitude far below any sensible comparison tolerance ... but not zero
+        q = np.array(cur["orientation"])
+        q = q + np.array([0.0, 3e-9, -2e-9, 1e-9])
+        st["orientation"] = (q / np.linalg.norm(q)).tolist()
+        st["position"] = [c + 1e-9 * (abs(c) + 1.0) for c in cur["position"]]
+    elif o["mode"] == "full":
+        st = {"velocity": o["V"], "alpha": o["alpha"], "beta": o["beta"]}      # everything else back to the defaults
+    return st
+
+
+def raw_state(sc, name):
+    """what the aircraft object holds: position, attitude, Earth-fixed velocity, body rates, rate frame, controls"""
+    a = sc._airplanes[name]
+    return dict(position=[float(x) for x in a.p_bar], orientation=[float(x) for x in a.q], velocity=[float(x) for x in a.v],
+                angular_rates=[float(x) for x in a.w], rate_frame=getattr(a, "angular_rate_frame", "body"),
+                controls={k: float(v) for k, v in a.current_control_state.items()})
+
+
+NO_CHANGE = ("solve", "dist", "stab", "damp", "ctrl", "stab_prev", "damp_prev", "derivs_prev", "stab_all", "damp_all", "ctrl_all", "state_derivs_all",
+             "derivs", "state_derivs", "aero_center", "trim_noset", "trim_orient_noset", "target_CL_noset")
+
+
 def canon(x):
     """canonical JSON-able copy of an API result"""
     return json.loads(json.dumps(x, default=common._jsonable))
@@ -89,25 +123,7 @@ def apply_op(sc, o, pool, names_ids, MX):
             names_ids.pop(o["name"], None)
             return None, None
         if k == "set_state":
-            a = sc._airplanes[o["name"]]
-            cur = live_state(sc, o["name"], MX)
-            st = {"velocity": o["V"], "alpha": o["alpha"], "beta": o["beta"], "position": cur["position"], "orientation": cur["orientation"],
-                  "angular_rates": cur["angular_rates"]}
-            if o["mode"] == "pose":
-                st["position"] = [c + d for c, d in zip(cur["position"], o["dp"])]
-                st["orientation"] = o["E"]
-            elif o["mode"] == "position_only":
-                # move (also in altitude) without turning: density / wind / the other aircraft are seen from the new place
-                st["position"] = [cur["position"][0] + o["dp"][0], cur["position"][1] + o["dp"][1], cur["position"][2] + 40.0 * o["dp"][2]]
-            elif o["mode"] == "tiny_pose":
-                # a change of attitude far below any sensible comparison tolerance ... but not zero
-                q = np.array(cur["orientation"])
-                q = q + np.array([0.0, 3e-9, -2e-9, 1e-9])
-                st["orientation"] = (q / np.linalg.norm(q)).tolist()
-                st["position"] = [c + 1e-9 * (abs(c) + 1.0) for c in cur["position"]]
-            elif o["mode"] == "full":
-                st = {"velocity": o["V"], "alpha": o["alpha"], "beta": o["beta"]}      # everything else back to the defaults
-            sc.set_aircraft_state(state=st, aircraft=o["name"])
+            sc.set_aircraft_state(state=state_for(sc, o, MX), aircraft=o["name"])
             return None, None
         if k == "set_controls":
             sc.set_aircraft_control_state(control_state=copy.deepcopy(o["controls"]), aircraft=o["name"])
@@ -147,7 +163,8 @@ def apply_op(sc, o, pool, names_ids, MX):
         if k in ("trim_orient", "trim_orient_noset"):
             return canon(sc.pitch_trim_using_orientation(aircraft=o["name"], set_trim_state=(k == "trim_orient"))), None
         if k in ("target_CL", "target_CL_noset"):
-            cs = {kk: float(v) for kk, v in sc._airplanes[o["name"]].current_control_state.items()}
+            # the control state handed over differs from the current one (the call documents that it is applied for the analysis)
+            cs = {kk: float(v) + (1.5 if kk == "elevator" else -0.75) for kk, v in sc._airplanes[o["name"]].current_control_state.items()}
             return canon(sc.target_CL(CL=0.35, control_state=cs, set_state=(k == "target_CL"))), None
     except Exception as e:
         return None, type(e).__name__
@@ -172,7 +189,28 @@ def run_history(MX, ops, pool, compare=True, sd=SD):
             except Exception as e:
                 ref = ("fresh-build-failed", type(e).__name__)
         empty = not sc._airplanes
+        before, twin = None, None
+        if compare and o["op"] in NO_CHANGE and sc._airplanes:
+            before = {n: raw_state(sc, n) for n in sc._airplanes}
+        if compare and o["op"] == "set_state" and o["name"] in sc._airplanes:
+            # what the same dictionary gives on an aircraft that has no history (its own scene: set_aircraft_state looks at nothing else)
+            try:
+                twin = MX.Scene(copy.deepcopy(sd))
+                twin.add_aircraft(o["name"], copy.deepcopy(pool[names_ids[o["name"]]]), state=copy.deepcopy(state_for(sc, o, MX)))
+            except Exception as e:
+                twin = None
         got = apply_op(sc, o, pool, names_ids, MX)
+        if before is not None and got[1] is None:       # a call that raised (diverging trim ...) promises nothing about the state it leaves
+            after = {n: raw_state(sc, n) for n in sc._airplanes}
+            bad = api.compare(after, before, rtol=1e-9, atol=1e-9)
+            if bad or list(after) != list(before):
+                return trace, dict(step=i, op=o, what="non-modifying-call-changed-the-state", differences=bad[:6])
+        if twin is not None and got[1] is None:
+            a1, a2 = raw_state(sc, o["name"]), raw_state(twin, o["name"])
+            a1.pop("controls"); a2.pop("controls")
+            bad = api.compare(a1, a2, rtol=1e-9, atol=1e-9)
+            if bad:
+                return trace, dict(step=i, op=o, what="set_state-depends-on-history", differences=bad[:6])
         if compare and empty and o["op"] in ("solve", "dist") and got[1] is None:
             return trace, dict(step=i, op=o, what="query-on-empty-scene-returns-results", returned=str(got[0])[:200])
         trace.append(([n for n in sc._airplanes], bool(sc._solved), got[1] is not None))
@@ -322,6 +360,12 @@ def run(chk):
         sd = copy.deepcopy(SD)
         if wind:
             sd["scene"]["atmosphere"]["V_wind"] = [round(rng.uniform(-15, 15), 2), round(rng.uniform(-15, 15), 2), round(rng.uniform(-3, 3), 2)]
+            if rng.random() < 0.4:
+                # wind that changes with altitude: what an aircraft sees depends on where it is now
+                w0 = sd["scene"]["atmosphere"]["V_wind"]
+                sd["scene"]["atmosphere"]["V_wind"] = [[-2500.0, w0[0], w0[1], w0[2]], [0.0, -w0[1], 0.5 * w0[0], 0.0],
+                                                       [2500.0, w0[0] + 12.0, w0[1] - 9.0, -w0[2]]]
+                chk.count("wind=profile")
         if rng.random() < 0.35:
             sd["scene"]["atmosphere"]["rho"] = "standard"          # position matters: results depend on the altitude
             chk.count("atmosphere=standard")
